@@ -181,7 +181,19 @@ def stream_for0(pid, tier, seed):
     if pid in ("C01", "C02", "C04"):
         return defects + pulls_stream(rng, tier, pid)
     if pid == "C03":
-        return defects + pulls_stream(rng, tier, pid, prof=dict(loops=False, query=False, drain=0.2))
+        cases = defects + pulls_stream(rng, tier, pid, prof=dict(loops=False, query=False, drain=0.2))
+        # buffered chunk iterators whose previous chunk was only partly consumed (stale slots in a reused buffer)
+        i = 0
+        for kind in ["iter", "iterref", "vec", "slice", "array"]:
+            for L in range(1, 7):
+                for n in (2, 3, 4):
+                    for ks in itertools.product(["0", "1", "all"], repeat=3):
+                        c = make_source(rng, "C03-half%d" % i, kind, L, hint=rng.choice(["exact", "inexact"]))
+                        c.threads = [["bufnew %d" % n] + ["bufnext %s" % k for k in ks] + ["bufnext all"]]
+                        c.owner = rng.choice(["drop", "intoseq all"])
+                        cases.append(c)
+                        i += 1
+        return cases
     if pid == "C05":
         cases = defects + pulls_stream(rng, tier, pid, prof=dict(nonfused=False), exh=False, n_random=800 if not big else 30000)
         # past-the-end: many further pulls after the first end
@@ -262,7 +274,18 @@ def stream_for0(pid, tier, seed):
             c = rand_case(rng, "C13-r%d" % i, dict(kinds=["slice", "vecref", "arrref", "iterref"], adapts=False, skip=True))
             c.adapt = rng.choice(["cloned", "copied"])
             cases.append(c)
-        return cases
+        progs = [[["next", "skip"], ["bufnew 2", "bufnext all", "next"]], [["chunk 2 1", "hasmore"], ["foreach 2"]]]
+        for c in exhaustive("C13-x2", small_bases(rng, progs, ["slice", "iterref"]), 2, 8 if not big else 11):
+            c.adapt = "cloned" if (len(cases) % 2) else "copied"
+            cases.append(c)
+        # the underlying reference-yielding iterator, driven with the same case (lock-step twin)
+        twins = []
+        for c in cases:
+            t = parse_cases(c.text())[0]
+            t.id = c.id + ".u"
+            t.adapt = "none"
+            twins.append(t)
+        return cases + twins
     if pid == "C16":
         return [c for c in defects if c.id[0] in "HR" or c.id.startswith("D10")] + boundary_stream(rng, tier)
     if pid == "C17":
